@@ -37,7 +37,7 @@ ASSUMPTIONS = ['the backoff function stops granting retries after the '
                'final disposition is judged at quiescence of the event loop']
 CELL_BUDGET_S = {'quick': 200, 'thorough': 2400}
 SAMPLE_P = 0.02
-MAX_WITNESSES = 6
+MAX_WITNESSES = 10
 
 
 def cells(tier):
